@@ -16,7 +16,7 @@ Definition l_in : layout := {| core_depth := 2; core_inside_client := Some c1 |}
 Definition h_F11b : list gen_call :=
   [call c1 [200; 404] true; call c2 [200; 409] true; call c1 [200; 404] true].
 
-(* F11c: core "c1.core": c2 (404) first, then c1 (404) without force: success, nothing generated *)
+(* F11c (fixed): core "c1.core": c2 (404) first, then c1 (404) without force *)
 Definition h_F11c : list gen_call := [call c2 [200; 404] false; call c1 [200; 404] false].
 
 (* ---------- sorted sets ---------- *)
@@ -135,14 +135,14 @@ Proof.
 Qed.
 
 Lemma J_step : forall l w g,
-  is_shared l = true -> bad_F11b l w g = false -> bad_F11c l w g = false ->
+  is_shared l = true -> bad_F11b l w g = false ->
   J w -> J (step l w g).
 Proof.
-  intros l w g Hs Hb Hc [Hr Ha Hn Hcl]. unfold step, step_out.
-  unfold bad_F11b in Hb. unfold bad_F11c in Hc.
+  intros l w g Hs Hb [Hr Ha Hn Hcl]. unfold step, step_out.
+  unfold bad_F11b in Hb.
   destruct (negb (g_force g) && dir_exists l w (g_client g)) eqn:Ediff.
-  - (* diff path: nothing changes, and by guard F11c nothing is claimed *)
-    simpl in Hc. rewrite Hc. simpl. constructor; simpl; auto.
+  - (* diff path: nothing changes *)
+    simpl. constructor; auto.
   - (* direct path *)
     assert (Hw : dir_exists l w (g_client g) && inside l (g_client g) = false).
     { destruct (dir_exists l w (g_client g)) eqn:Ed; simpl; [|reflexivity].
@@ -157,53 +157,43 @@ Proof.
     + intros c es x Hl Hx. unfold union_codes. apply (proj2 (In_sort_set _ _)).
       eapply alookup_In_concat; eauto.
     + apply nodup_akeys_aset. exact Hn.
-    + unfold Claimed_present. cbn [clients claimed]. intros c Hin. rewrite amem_aset. apply In_add_str in Hin. destruct Hin as [Hin|Hin].
+    + unfold Claimed_present. cbn [clients claimed]. intros c Hin. rewrite amem_aset. apply In_add_str in Hin.
+      destruct Hin as [Hin|Hin].
       * subst. rewrite str_eqb_refl. reflexivity.
       * rewrite (Hcl c Hin). apply orb_true_r.
 Qed.
 
 Lemma J_run_from : forall l h w,
-  is_shared l = true -> never bad_F11b l w h = true -> never bad_F11c l w h = true ->
+  is_shared l = true -> never bad_F11b l w h = true ->
   J w -> J (fold_left (step l) h w).
 Proof.
-  intros l h. induction h as [|g h IH]; intros w Hs Hb Hc HJ; simpl in *.
+  intros l h. induction h as [|g h IH]; intros w Hs Hb HJ; simpl in *.
   - exact HJ.
   - apply andb_true_iff in Hb. destruct Hb as [Hb1 Hb2].
-    apply andb_true_iff in Hc. destruct Hc as [Hc1 Hc2].
-    apply negb_true_iff in Hb1. apply negb_true_iff in Hc1.
+    apply negb_true_iff in Hb1.
     apply IH; auto. apply J_step; auto.
 Qed.
 
 (* main theorem: for every layout and every history that meets the executable guard *)
 Theorem works_under_guard : forall l h, guard l h = true -> Works (run l h).
 Proof.
-  intros l h Hg. unfold guard, wf_layout, guard_F11b, guard_F11c in Hg.
-  apply andb_true_iff in Hg. destruct Hg as [Hg Hc].
+  intros l h Hg. unfold guard, wf_layout, guard_F11b in Hg.
   apply andb_true_iff in Hg. destruct Hg as [Hs Hb].
   apply J_Works. unfold run. apply J_run_from; auto. apply J_init.
 Qed.
 
-(* the static form asked for in the design: a shared core that lives in no client's directory *)
+(* the static form asked for in the design: a core that lives in no client's directory *)
 Lemma never_b_outside : forall l h w, core_inside_client l = None -> never bad_F11b l w h = true.
 Proof.
   intros l h. induction h as [|g h IH]; intros w Hn; simpl; [reflexivity|].
   rewrite IH by exact Hn. unfold bad_F11b, inside. rewrite Hn. reflexivity.
 Qed.
 
-Lemma never_c_outside : forall l h w, core_inside_client l = None -> never bad_F11c l w h = true.
-Proof.
-  intros l h. induction h as [|g h IH]; intros w Hn; simpl; [reflexivity|].
-  rewrite IH by exact Hn. unfold bad_F11c, dir_exists, inside. rewrite Hn.
-  rewrite andb_false_l, orb_false_r.
-  destruct (g_force g); simpl; [reflexivity|].
-  destruct (amem (g_client g) (clients w)); reflexivity.
-Qed.
-
 Theorem works_shared_outside : forall l h,
   is_shared l = true -> core_inside_client l = None -> Works (fold_left (step l) h init).
 Proof.
-  intros l h Hs Hn. apply (works_under_guard l h). unfold guard, wf_layout, guard_F11b, guard_F11c.
-  rewrite Hs, never_b_outside, never_c_outside by exact Hn. reflexivity.
+  intros l h Hs Hn. apply (works_under_guard l h). unfold guard, wf_layout, guard_F11b.
+  rewrite Hs, never_b_outside by exact Hn. reflexivity.
 Qed.
 
 (* ---------- refutations ---------- *)
@@ -225,7 +215,7 @@ Proof.
 Qed.
 
 Lemma refuted_F11b :
-  wf_layout l_in = true /\ guard_F11b l_in h_F11b = false /\ guard_F11c l_in h_F11b = true
+  wf_layout l_in = true /\ guard_F11b l_in h_F11b = false
   /\ ~ Inv (run l_in h_F11b).
 Proof.
   repeat split; try (vm_compute; reflexivity).
@@ -234,15 +224,14 @@ Proof.
   vm_compute in Hx. destruct Hx as [Hx|[]]. discriminate.
 Qed.
 
-Lemma refuted_F11c :
-  wf_layout l_in = true /\ guard_F11b l_in h_F11c = true /\ guard_F11c l_in h_F11c = false
-  /\ Inv (run l_in h_F11c) /\ ~ Claimed_present (run l_in h_F11c).
+(* regression (F11c fixed by the stricter diff check): the non-force call over the directory that only
+   holds the core raises; c1 is not reported as generated and c2 keeps working *)
+Lemma fixed_F11c :
+  guard l_in h_F11c = true /\ Works (run l_in h_F11c)
+  /\ map snd (trace l_in init h_F11c) = [true; false] /\ claimed (run l_in h_F11c) = [c2].
 Proof.
-  repeat split; try (vm_compute; reflexivity).
-  - intros c cs Hin. vm_compute in Hin. destruct Hin as [Hin|[]]. inversion Hin; subst.
-    vm_compute. intros x Hx. exact Hx.
-  - intro H. specialize (H c1). assert (Hc : In c1 (claimed (run l_in h_F11c))) by (vm_compute; auto).
-    apply H in Hc. vm_compute in Hc. discriminate.
+  split; [vm_compute; reflexivity|]. split; [apply works_under_guard; vm_compute; reflexivity|].
+  split; vm_compute; reflexivity.
 Qed.
 
 (* ---------- non-vacuity ---------- *)
